@@ -77,6 +77,8 @@ def rules(model: Model, tier: str) -> List[RuleResult]:
             RZ.note("%s has no zero-residual shortcut" % f.fq)
         _check_shape(f, SH)
     _check_termination_condition(model, TC)
+    TN = RuleResult(PROP, "C03-TN", "the quantities bounded by the tolerances are all-element 2-norms of the step, the iterate and the function value (shape independent)", min_instances=3)
+    _termination_norms(model, TN)
     _check_best_point(model, ents, RB)
     from ..rules import autograd as _ac
     _R11 = RuleResult(PROP, "AC11", "every exit of the public functional returns the Function's output; forward's solution comes only from the dispatched implementation; operands unchanged", min_instances=2)
@@ -111,7 +113,7 @@ def rules(model: Model, tier: str) -> List[RuleResult]:
     CK = RuleResult(PROP, "C03-A", "terminator.check(x, y, dx): y involves the function value at x, dx (the step) does not", min_instances=2)
     for f in sorted(loops, key=lambda f: f.fq):
         _check_argument_roles(f, CK)
-    return [W, W2, P, RC, RZ, RB, SH, TC, KT, CS, CK, _R11]
+    return [W, W2, P, RC, RZ, RB, SH, TC, TN, KT, CS, CK, _R11]
 
 
 def _check_argument_roles(f: FuncInfo, CK: RuleResult):
@@ -268,6 +270,79 @@ def _check_shape(f: FuncInfo, SH: RuleResult):
                 SH.ok(f.fq, what + " restores %s.shape" % x0)
             else:
                 SH.bad(f, r, "returned value is not reshaped to the shape of the initial guess `%s`" % x0, what=what)
+
+
+def _all_element_norm(e: ast.AST):
+    """(operand, verdict) for a norm expression: verdict True = the 2-norm over all elements whatever the shape; a message = a norm whose
+    meaning depends on the shape of the operand; None = not recognised"""
+    FLAT = ("reshape(-1)", "flatten()", "ravel()", "view(-1)")
+
+    def flat(x):
+        return ast.unparse(x).endswith(FLAT)
+    if not isinstance(e, ast.Call):
+        return None, None
+    fn = ast.unparse(e.func)
+    kws = {k.arg: k.value for k in e.keywords}
+    if isinstance(e.func, ast.Attribute) and e.func.attr == "norm" and fn not in ("torch.norm", "torch.linalg.norm"):
+        x = e.func.value
+        if not e.args and not kws:
+            return x, True
+        if flat(x) and not ({"dim"} & set(kws)) and len(e.args) <= 1 and (not e.args or ast.unparse(e.args[0]) in ("2", "2.0", "'fro'")):
+            return x, True
+        return x, "`%s` is not the norm over all elements (dim / p given on an operand that is not flattened)" % ast.unparse(e)
+    if fn in ("torch.norm", "torch.linalg.vector_norm") and e.args:
+        x = e.args[0]
+        o_ = e.args[1] if len(e.args) > 1 else kws.get("ord", kws.get("p"))
+        if "dim" in kws or len(e.args) > 2:
+            return x, "`%s` reduces over some dimensions only" % ast.unparse(e)
+        if o_ is None or ast.unparse(o_) in ("2", "2.0") or (fn == "torch.norm" and ast.unparse(o_).strip("'\"") == "fro"):
+            return x, True
+        return x, "`%s` is not the 2-norm" % ast.unparse(e)
+    if fn == "torch.linalg.norm" and e.args:
+        x = e.args[0]
+        o_ = e.args[1] if len(e.args) > 1 else kws.get("ord")
+        if "dim" in kws or len(e.args) > 2:
+            return x, "`%s` reduces over some dimensions only" % ast.unparse(e)
+        if o_ is None or flat(x):
+            return x, True if (o_ is None or ast.unparse(o_) in ("2", "2.0")) else "`%s` is not the 2-norm" % ast.unparse(e)
+        return x, "`%s`: torch.linalg.norm with an explicit order is a MATRIX norm for a 2-D operand (spectral norm for ord=2) and an error " \
+                  "for more dimensions; the solvers pass unflattened (batch, feature) iterates" % ast.unparse(e)
+    return None, None
+
+
+def _termination_norms(model: Model, TN: RuleResult):
+    """TerminationCondition.check is shared by every root finder and by equilibrium's Anderson acceleration, which hands it (batch, feature)
+    shaped iterates.  'Converged' means the norm over ALL elements is below the tolerance: the three norms the comparisons bound must be
+    all-element 2-norms of (dx, x, y) - a matrix norm or a per-dimension norm under-reports the residual of a batched unknown."""
+    from ..flow import origins
+    chk = model.func(ROOTSOLVER, "TerminationCondition.check")
+    ps = chk.params()[1:4]
+    if len(ps) < 3:
+        raise AnchorError("TerminationCondition.check no longer takes (x, y, dx)")
+    defs = function_defs(chk.node)
+    seen = {}
+    for n in own_nodes(chk.node):
+        if not (isinstance(n, ast.Call)):
+            continue
+        x, verdict = _all_element_norm(n)
+        if x is None:
+            continue
+        root = x
+        while isinstance(root, (ast.Call, ast.Attribute, ast.Subscript)):
+            root = root.func if isinstance(root, ast.Call) else root.value
+        if not (isinstance(root, ast.Name) and root.id in ps):
+            continue
+        seen.setdefault(root.id, []).append((n, verdict))
+    for p_ in ps:
+        if p_ not in seen:
+            TN.undecided(chk, chk.node, "cannot find the norm of `%s` in TerminationCondition.check" % p_)
+            continue
+        for n, verdict in seen[p_]:
+            what = "norm of %s: `%s`" % (p_, ast.unparse(n))
+            if verdict is True:
+                TN.ok(chk.fq, what + " is the 2-norm over all elements for every shape")
+            else:
+                TN.bad(chk, enclosing_stmt(n), "the termination test must bound the norm over all elements of `%s`: %s" % (p_, verdict), what=what)
 
 
 def _check_termination_condition(model: Model, TC: RuleResult):
